@@ -257,8 +257,12 @@ func (cw *convWorld) check(t *Task) {
 			}
 			last := s.events[len(s.events)-1]
 			if !ok {
-				w.Violate("pullid-not-closed", fmt.Sprintf("%s: item %q was removed but the PullID stream is still open after %s", s.name, id, eventsString(s.events)),
-					map[string]any{"resource": "collection"})
+				mode := "lossy"
+				if s.cfg.Backpressure {
+					mode = "backpressure"
+				}
+				w.Violate("pullid-not-closed", fmt.Sprintf("%s [%s]: item %q was removed but the PullID stream is still open after %s", s.name, s.cfg, id, eventsString(s.events)),
+					map[string]any{"resource": "collection", "mode": mode, "cause": cw.staleCause(s, id, all)})
 				continue
 			}
 			if last.New != proj(cur) {
@@ -306,7 +310,7 @@ func resName(coll bool) string {
 // seed contains an item, whose creation event is published (again) after the subscriber registered, and which is then
 // removed: the merge pump cancels the duplicate ADD against the REMOVE and the subscriber never learns of the removal.
 func (cw *convWorld) staleCause(s *subscriber, id string, all []hop) string {
-	if !cw.coll || s.cfg.Backpressure || s.cfg.UpdatesOnly || s.cfg.UsePullID {
+	if !cw.coll || s.cfg.Backpressure || s.cfg.UpdatesOnly {
 		return ""
 	}
 	inSeed, later := false, false
